@@ -57,11 +57,17 @@ thread_local! {
 static G_LIVE: AtomicI64 = AtomicI64::new(0);
 static G_LIVE_N: AtomicI64 = AtomicI64::new(0);
 static G_ALLOCS: AtomicU64 = AtomicU64::new(0);
+static POISON: std::sync::atomic::AtomicBool = std::sync::atomic::AtomicBool::new(false);
+
+/// When on, every fresh heap block is filled with 0xAA, so that memory the subject forgets to
+/// initialise is never accidentally zero.
+pub fn set_poison(on: bool) { POISON.store(on, Ordering::Relaxed); }
 
 unsafe impl GlobalAlloc for Tracking {
     unsafe fn alloc(&self, l: Layout) -> *mut u8 {
         let p = System.alloc(l);
         if !p.is_null() {
+            if POISON.load(Ordering::Relaxed) { std::ptr::write_bytes(p, 0xAA, l.size()); }
             let _ = T_BYTES.try_with(|c| c.set(c.get() + l.size() as u64));
             let _ = T_CALLS.try_with(|c| c.set(c.get() + 1));
             G_LIVE.fetch_add(l.size() as i64, Ordering::Relaxed);
